@@ -24,6 +24,8 @@ func debugSym(p *Program, spec string, failReads bool) {
 	}
 	e := NewEngine(p)
 	e.EvalInits = true
+	e.RunOnce, e.RunInitFuncs = true, true
+	e.Opaque = func(f *ssa.Function) bool { return f.Pkg != nil && strings.HasSuffix(f.Pkg.Pkg.Path(), "linear/lut") }
 	e.FailReads = failReads
 	st := newState()
 	var args []Val
